@@ -1,8 +1,5 @@
 package main
 
-func genSites(repo string) (string, []string) {
-	return "(* GENERATED — placeholder *)\n", nil
-}
 func genCodec(repo string) (string, []string) {
 	return "(* GENERATED — placeholder *)\n", nil
 }
